@@ -1,0 +1,62 @@
+// Copyright 2025- flacenc-rs developers
+//
+// Licensed under the Apache License, Version 2.0 (the "License");
+// you may not use this file except in compliance with the License.
+// You may obtain a copy of the License at
+//
+//      http://www.apache.org/licenses/LICENSE-2.0
+//
+// Unless required by applicable law or agreed to in writing, software
+// distributed under the License is distributed on an "AS IS" BASIS,
+// WITHOUT WARRANTIES OR CONDITIONS OF ANY KIND, either express or implied.
+// See the License for the specific language governing permissions and
+// limitations under the License.
+
+//! Scheduling/observation points for external verification harnesses.
+//!
+//! This module only exists when the crate is compiled with
+//! `--cfg flacenc_verif`. Without an installed [`Observer`], a point costs
+//! one relaxed atomic load.
+
+use std::sync::atomic::AtomicBool;
+use std::sync::atomic::Ordering;
+use std::sync::Arc;
+use std::sync::RwLock;
+
+/// Receiver of scheduling points.
+pub trait Observer: Send + Sync {
+    /// Called by the thread that reached the point `site`.
+    ///
+    /// `a` and `b` are site-specific values (buffer id, frame number, queue
+    /// length, ...). When the operation that follows the point may block,
+    /// `ready` tells whether it can complete without blocking right now. The
+    /// observer may keep the calling thread inside this call for as long as it
+    /// wants (that is how a deterministic scheduler serializes threads).
+    fn at(&self, site: &'static str, a: i64, b: i64, ready: Option<&dyn Fn() -> bool>);
+}
+
+static ACTIVE: AtomicBool = AtomicBool::new(false);
+static OBSERVER: RwLock<Option<Arc<dyn Observer>>> = RwLock::new(None);
+
+/// Installs (or removes, with `None`) the process-wide observer.
+pub fn install(observer: Option<Arc<dyn Observer>>) {
+    let mut slot = OBSERVER.write().unwrap_or_else(|e| e.into_inner());
+    ACTIVE.store(observer.is_some(), Ordering::SeqCst);
+    *slot = observer;
+}
+
+/// Reports that the calling thread reached `site`.
+#[inline]
+pub fn point(site: &'static str, a: i64, b: i64, ready: Option<&dyn Fn() -> bool>) {
+    if !ACTIVE.load(Ordering::Relaxed) {
+        return;
+    }
+    let obs = OBSERVER
+        .read()
+        .unwrap_or_else(|e| e.into_inner())
+        .as_ref()
+        .map(Arc::clone);
+    if let Some(obs) = obs {
+        obs.at(site, a, b, ready);
+    }
+}
